@@ -192,6 +192,9 @@ pub async fn exec_c01(script: Value) -> ExecResult {
         Ok(s) => s,
         Err(e) => return ExecResult { violation: Some(Violation::new("harness.script", e.to_string())), info: RunInfo::default() },
     };
+    // paced: every operation is followed by quiescence, so a compaction never overlaps a later apply and
+    // the recorded defect "snapshot newer than its header" cannot occur: its signature is then not tolerated
+    let paced = script["paced"].as_bool().unwrap_or(false);
     tokio::fs::set_cfg(disk_cfg(&cfg));
     tokio::fs::with_disk(|d| {
         d.journal_on = false;
@@ -260,7 +263,7 @@ pub async fn exec_c01(script: Value) -> ExecResult {
                     }
                     // root-cause signatures of two recorded defects (see known_findings.jsonl); anything else is a violation
                     let (b2, a2, admin_changed) = strip_admin(&before, &after);
-                    let replay_sig = b2 != a2 && only_sequences_advanced(&b2, &a2);
+                    let replay_sig = !paced && b2 != a2 && only_sequences_advanced(&b2, &a2);
                     if before != after && (b2 == a2 || replay_sig) {
                         if admin_changed {
                             sim::count("probe.default_admin_recreated_during_startup_load", 1);
@@ -316,6 +319,11 @@ pub async fn exec_c01(script: Value) -> ExecResult {
                         }
                         (OpOutcome::Err(e), _) => vfail!(&format!("{}.op_failed", id), "step {} {:?} failed on a fault-free single node: {}", i, st, e),
                         _ => {}
+                    }
+                    if paced {
+                        settle().await;
+                        advance(20).await;
+                        settle().await;
                     }
                 }
             }
@@ -466,7 +474,8 @@ impl Check for C01 {
             }
         }
         steps.push(WStep::Restart { node: 1 });
-        json!({"check": "C01", "seed": seed, "cfg": cfg, "steps": steps})
+        let paced = rng.chance(0.5);
+        json!({"check": "C01", "seed": seed, "cfg": cfg, "steps": steps, "paced": paced})
     }
     fn execute(&self, script: Value) -> LocalFut<ExecResult> {
         Box::pin(exec_c01(script))
